@@ -4,7 +4,7 @@ from __future__ import annotations
 import ast
 from typing import Dict, List, Optional, Set, Tuple
 
-from ..core import Collector, guarded, norm, Unrecognised, AnchorMissing
+from ..core import Collector, guarded, acquire_grammar, norm, Unrecognised, AnchorMissing
 from ..grammar import (G, Action, named_nodes, names_inner, names_out, walk, flatten_and, flatten_alt, action_reads,
                        positional_reads, value_action, save_as_list, top_shape)
 from .. import gtools as gt
@@ -205,9 +205,9 @@ def dict_keys_of(act: Action, dname: Optional[str] = None) -> Tuple[Set[str], Li
 
 def run(ctx, col: Collector):
     idx = ctx.idx
-    gm = ctx.grammar
+    gm = acquire_grammar(ctx, col, 'C01-grammar')
     bps = blueprint_classes(ctx)
-    col.stat('grammar_nodes', len(gm.reachable()))
+    guarded(col, 'C01-grammar', 'stats', lambda: col.stat('grammar_nodes', len(gm.reachable())))
 
     # ---------------------------------------------------------------- C01-names
     def names():
